@@ -41,6 +41,7 @@ def pos(lines, starts, lineno, col):
 def apply_edits(src, edits):
     """edits: [(start, end, text)] non-overlapping"""
     out = src
+    edits = list({(a, b): (a, b, t) for a, b, t in edits}.values())  # nested functions are walked twice
     for a, b, t in sorted(edits, key=lambda e: -e[0]):
         out = out[:a] + t + out[b:]
     return out
